@@ -151,6 +151,14 @@ func (c *c06World) build(s *gen.Stream, id string) (*gen.World, *gen.Cert) {
 	w.Times = c.timeSet()
 	w.TcbInfo.NextUpdate = c.win["tcbinfo-document"].NotAfter
 	w.QeID.NextUpdate = c.win["qeidentity-document"].NotAfter
+	// a document is issued while its signer is valid: at the start of the signer's validity (which may lie AFTER the time
+	// the document is judged at — then the signer is not yet valid and nothing about the document's own dates changes that)
+	w.TcbInfo.IssueDate = c.win["tcbinfo-signer"].NotBefore
+	if c.shared {
+		w.QeID.IssueDate = c.win["tcbinfo-signer"].NotBefore
+	} else {
+		w.QeID.IssueDate = c.win["qeidentity-signer"].NotBefore
+	}
 	w.PckCrl.NextUpdate = c.win["pckcrl"].NotAfter
 	w.RootCrl.NextUpdate = c.win["rootcrl"].NotAfter
 	w.PckCrl.ThisUpdate = c.win["pckcrl"].NotAfter.AddDate(-40, 0, 0)
@@ -284,14 +292,17 @@ func TestC06(t *testing.T) {
 						if bound == "notBefore" && !j.nb {
 							continue
 						}
-						for _, off := range []int{-1, 0, 1} {
+						// the governing time relative to the (whole-second) bound: a second and a nanosecond before, at, and a
+						// nanosecond, half a second, just under a second and a second after
+						for _, off := range []time.Duration{-time.Second, -time.Nanosecond, 0, time.Nanosecond, 500 * time.Millisecond, time.Second - time.Nanosecond, time.Second} {
 							idx++
 							if gen.Tier() == "thorough" && !gen.ShardOwns(idx) {
 								continue
 							}
 							c := c06Fresh(distinctTimes(s), shared)
 							w := c.win[j.name]
-							at := c.times[j.ti].Add(time.Duration(-off) * time.Second) // governing time = bound + off
+							at := c.times[j.ti] // the bound; the governing time becomes bound + off
+							c.times[j.ti] = at.Add(off)
 							if bound == "notAfter" {
 								w.NotAfter = at
 							} else {
@@ -310,7 +321,7 @@ func TestC06(t *testing.T) {
 									c.times[o.ti] = w.NotBefore.Add(time.Duration(1000+o.ti) * time.Hour)
 								}
 							}
-							desc := fmt.Sprintf("%s.%s judged at %s = bound%+ds (shared certificates=%v)", j.name, bound, timeNames[j.ti], off, shared)
+							desc := fmt.Sprintf("%s.%s judged at %s = bound%+v (shared certificates=%v)", j.name, bound, timeNames[j.ti], off, shared)
 							gen.NonTrivial(desc, rep)
 							if idx%23 == 0 {
 								gen.Sample("grid", desc)
@@ -323,7 +334,7 @@ func TestC06(t *testing.T) {
 				}
 			}
 		}
-		gen.Exhaustive("boundary grid: every verdict-relevant bound x governing time x {-1s, at, +1s}, other artifacts decades away, five distinct times; separate and shared certificate shapes", true)
+		gen.Exhaustive("boundary grid: every verdict-relevant bound x governing time x {-1s, -1ns, at, +1ns, +0.5s, +1s-1ns, +1s}, other artifacts decades away, five distinct times; separate and shared certificate shapes", true)
 	})
 	// (1b) pairs: one artifact about to expire (still valid: 1 s, 1 h or 23 h left at its governing times) together
 	// with another one that has expired (by 1 s or by a month): whatever is said or done about the first, the
